@@ -35,7 +35,7 @@ pub fn run(args: &Args, out: &mut Out) {
         let v: Value = serde_json::from_str(&std::fs::read_to_string(p).ok()?).ok()?;
         v["replay"]["case"].as_u64().map(|x| x as usize)
     });
-    for idx in 0..args.n(32, 480) {
+    for idx in 0..args.n(64, 640) {
         if let Some(o) = only {
             if o != idx {
                 continue;
@@ -68,7 +68,7 @@ fn case(seed: u64, idx: usize, bin: &str, shim: &str, rt: &std::sync::Arc<tokio:
         fsync: if full { "full" } else { "data_only" },
         wal_flush_ms: w,
         snapshot_interval: *rng.pick(&[1000u64, 1000, 4]),
-        max_wal: *rng.pick(&[1u64 << 20, 1 << 20, 700]),
+        max_wal: *rng.pick(&[1u64 << 20, 700, 400]),
         ..Default::default()
     };
     let desc = json!({"check":"C01","leg":"server-periodic","seed":seed,"case":idx,"fsync":cfg.fsync,"wal_flush_ms":w,"snapshot_interval":cfg.snapshot_interval,"max_wal":cfg.max_wal});
@@ -93,7 +93,7 @@ fn case(seed: u64, idx: usize, bin: &str, shim: &str, rt: &std::sync::Arc<tokio:
     let mut hist: Vec<Value> = Vec::new();
     // failure instants: (instant, trace bytes at that instant, #ops acked)
     let mut points: Vec<(Instant, u64, usize)> = Vec::new();
-    let n = rng.range(5, 16) as usize;
+    let n = rng.range(6, 24) as usize;
     let trace_len = |p: &std::path::Path| std::fs::metadata(p).map(|m| m.len()).unwrap_or(0);
     for k in 0..n {
         let id = *rng.pick(&ids);
@@ -205,6 +205,11 @@ fn case(seed: u64, idx: usize, bin: &str, shim: &str, rt: &std::sync::Arc<tokio:
             }
             let rp = json!({"desc":desc,"failure_point":pi,"acked":acked,"required":required,"loss":format!("{:?}",loss),"history":hist});
             if let Err(e) = s2.start() {
+                if !e.contains("exited during start-up") {
+                    // watchdog / port trouble: not a verdict
+                    out.inconclusive(format!("case {}: recovery server did not come up for a reason other than refusing to start: {}", idx, e));
+                    continue;
+                }
                 out.violation(
                     format!("server-restart-failed-after-power-loss|{}", cfg.fsync),
                     format!("after power loss ({:?}) at a quiescent instant with {} acknowledged operations the server does not start: {}", loss, acked, e),
